@@ -698,6 +698,9 @@ class FnLower:
         self.param_names = []
         for i, p in enumerate(ps):
             nm = p.get('name') or ('_unnamed%d' % i)
+            if nm in self.param_names:
+                # expanded parameter packs repeat the pack's name: args, args_1, args_2, ...
+                nm = '%s_%d' % (nm, sum(1 for x in self.param_names if x == nm or x.startswith(nm + '_')))
             t = type_str(p['type'])
             if self._is_mptr_type(t):
                 self.mptr[p['id']] = None
